@@ -88,6 +88,30 @@ func (p *pool) close() {
 	}
 }
 
+// failing inputs are reported before mere correspondence breaks (Result keeps the first 50 only)
+var failInputs, failCorr []common.Mismatch
+
+func fail(m common.Mismatch) {
+	if m.Kind == "failing-input" {
+		if len(failInputs) < 50 {
+			failInputs = append(failInputs, m)
+		}
+	} else if len(failCorr) < 50 {
+		failCorr = append(failCorr, m)
+	}
+}
+
+func flushFails(res *common.Result) {
+	for _, m := range failInputs {
+		res.Fail(m)
+	}
+	for _, m := range failCorr {
+		res.Fail(m)
+	}
+	res.Count("mismatch-failing-input", len(failInputs))
+	res.Count("mismatch-broken-correspondence", len(failCorr))
+}
+
 // ---- shuffle suite ----
 
 type imgJob struct {
@@ -153,10 +177,53 @@ func shuffleSuite(ctx *common.Ctx, res *common.Result, p *pool) {
 			res.Evaluations++
 			res.Count("feistel", 1)
 			if ans[i] != impl[i] {
-				res.Fail(common.Mismatch{Property: prop, Kind: "broken-correspondence", Ops: []string{lines[i]}, Impl: impl[i], Model: ans[i]})
+				fail(common.Mismatch{Property: prop, Kind: "broken-correspondence", Ops: []string{lines[i]}, Impl: impl[i], Model: ans[i]})
 			}
 		}
 		res.Sample(map[string]string{"op": lines[0], "impl": impl[0], "model": ans[0]}, 12)
+	}
+	// (a') feistel itself: full image over [0, 2^bits) is a bijection (property feistel_bij), and equals the model's
+	{
+		var ls, impl []string
+		for b := 0; b <= ctx.Pick(12, 16); b++ {
+			for k := 0; k < 5; k++ {
+				seed := uint64(k)
+				if k >= 3 {
+					seed = ctx.Rng.Uint64()
+				}
+				size := uint64(1) << b
+				seen := make([]bool, size)
+				h := fnvInit
+				bij := true
+				for x := uint64(0); x < size; x++ {
+					y := epd.VerifFeistel(x, seed, b)
+					h = fnvU64(h, y)
+					if y >= size || seen[y] {
+						bij = false
+					} else {
+						seen[y] = true
+					}
+				}
+				op := fmt.Sprintf("fimg %d %d", b, seed)
+				res.Evaluations++
+				res.Count("feistel-image", 1)
+				if b%2 == 1 {
+					res.Nontrivial(op)
+				}
+				if !bij {
+					fail(common.Mismatch{Property: prop, Kind: "failing-input", Ops: []string{op},
+						Impl: "feistel is not a bijection of [0,2^bits)", Spec: "bijection", Note: fmt.Sprintf("bits=%d seed=%d", b, seed)})
+				}
+				ls = append(ls, op)
+				impl = append(impl, fmt.Sprintf("h %d", h))
+			}
+		}
+		ans := p.batch(ls)
+		for i := range ls {
+			if ans[i] != impl[i] {
+				fail(common.Mismatch{Property: prop, Kind: "broken-correspondence", Ops: []string{ls[i]}, Impl: impl[i], Model: ans[i]})
+			}
+		}
 	}
 	// (b) full images, all n up to nmax, epochs 0..7 plus one random 64-bit epoch per n
 	nmax := uint64(ctx.Pick(4096, 65536))
@@ -216,7 +283,7 @@ func shuffleSuite(ctx *common.Ctx, res *common.Result, p *pool) {
 			res.Nontrivial(fmt.Sprintf("img %d %d", j.n, j.seed))
 		}
 		if !j.bij {
-			res.Fail(common.Mismatch{Property: prop, Kind: "failing-input",
+			fail(common.Mismatch{Property: prop, Kind: "failing-input",
 				Ops:  []string{fmt.Sprintf("imgl %d %d", j.n, j.seed)},
 				Impl: fmt.Sprintf("not a bijection of [0,%d): first offending x=%d -> %d", j.n, j.first, epd.VerifShuffleIndex(j.first, j.n, j.seed)),
 				Spec: "permutation of [0,n)", Note: "n=" + fmt.Sprint(j.n) + " epoch=" + fmt.Sprint(j.seed)})
@@ -240,7 +307,7 @@ func shuffleSuite(ctx *common.Ctx, res *common.Result, p *pool) {
 			for x := uint64(0); x < j.n && x < 64; x++ {
 				gi = append(gi, fmt.Sprint(epd.VerifShuffleIndex(x, j.n, j.seed)))
 			}
-			res.Fail(common.Mismatch{Property: prop, Kind: kind, Ops: []string{fmt.Sprintf("imgl %d %d", j.n, j.seed)},
+			fail(common.Mismatch{Property: prop, Kind: kind, Ops: []string{fmt.Sprintf("imgl %d %d", j.n, j.seed)},
 				Impl: strings.Join(gi, " "), Model: trunc(full, 400)})
 		}
 	}
@@ -274,7 +341,7 @@ func shuffleSuite(ctx *common.Ctx, res *common.Result, p *pool) {
 					res.Evaluations++
 					res.Count("huge-n", 1)
 					if y >= n {
-						res.Fail(common.Mismatch{Property: prop, Kind: "failing-input", Ops: []string{ls[len(ls)-1]}, Impl: fmt.Sprint(y), Spec: "< n"})
+						fail(common.Mismatch{Property: prop, Kind: "failing-input", Ops: []string{ls[len(ls)-1]}, Impl: fmt.Sprint(y), Spec: "< n"})
 					}
 					if epd.VerifFeistel(x, seed, bits.Len64(n-1)) >= n {
 						res.Nontrivial(ls[len(ls)-1])
@@ -292,7 +359,7 @@ func shuffleSuite(ctx *common.Ctx, res *common.Result, p *pool) {
 		ans := p.batch(ls)
 		for i := range ls {
 			if ans[i] != impl[i] {
-				res.Fail(common.Mismatch{Property: prop, Kind: "broken-correspondence", Ops: []string{ls[i]}, Impl: impl[i], Model: ans[i]})
+				fail(common.Mismatch{Property: prop, Kind: "broken-correspondence", Ops: []string{ls[i]}, Impl: impl[i], Model: ans[i]})
 			}
 		}
 		res.Sample(map[string]string{"op": ls[len(ls)/2], "impl": impl[len(ls)/2], "model": ans[len(ls)/2]}, 12)
@@ -541,9 +608,9 @@ func readerSuite(ctx *common.Ctx, res *common.Result, m *common.Model, dir strin
 			res.Evaluations++
 			res.Count("batches", 1)
 			if got != impl {
-				res.Fail(common.Mismatch{Property: prop, Kind: partitionKind(bs, 0, n), Ops: []string{op}, Impl: trunc(impl, 300), Model: trunc(got, 300)})
+				fail(common.Mismatch{Property: prop, Kind: partitionKind(bs, 0, n), Ops: []string{op}, Impl: trunc(impl, 300), Model: trunc(got, 300)})
 			} else if k := partitionKind(bs, 0, n); k == "failing-input" {
-				res.Fail(common.Mismatch{Property: prop, Kind: k, Ops: []string{op}, Impl: trunc(impl, 300), Spec: "contiguous non-empty ranges covering [0,n)"})
+				fail(common.Mismatch{Property: prop, Kind: k, Ops: []string{op}, Impl: trunc(impl, 300), Spec: "contiguous non-empty ranges covering [0,n)"})
 			}
 			for _, b := range bs {
 				var cs []tuning.Range
@@ -559,7 +626,7 @@ func readerSuite(ctx *common.Ctx, res *common.Result, m *common.Model, dir strin
 					res.Nontrivial(op)
 				}
 				if got != impl || partitionKind(cs, b.Start, b.End) == "failing-input" {
-					res.Fail(common.Mismatch{Property: prop, Kind: partitionKind(cs, b.Start, b.End), Ops: []string{op}, Impl: trunc(impl, 300), Model: trunc(got, 300)})
+					fail(common.Mismatch{Property: prop, Kind: partitionKind(cs, b.Start, b.End), Ops: []string{op}, Impl: trunc(impl, 300), Model: trunc(got, 300)})
 				}
 			}
 		}
@@ -657,7 +724,7 @@ func checkFile(ctx *common.Ctx, res *common.Result, m *common.Model, fc *fileCas
 	if err != nil {
 		res.Count("manifest-error", 1)
 		if got != "err" {
-			res.Fail(common.Mismatch{Property: prop, Kind: "broken-correspondence", Ops: []string{desc}, Impl: "err", Model: trunc(got, 200), Note: dataNote})
+			fail(common.Mismatch{Property: prop, Kind: "broken-correspondence", Ops: []string{desc}, Impl: "err", Model: trunc(got, 200), Note: dataNote})
 		}
 		return
 	}
@@ -688,7 +755,7 @@ func checkFile(ctx *common.Ctx, res *common.Result, m *common.Model, fc *fileCas
 				ms = append(ms, fmt.Sprintf("%d:%d", a[0], a[1]))
 			}
 		}
-		res.Fail(common.Mismatch{Property: prop, Kind: kind, Ops: []string{desc, "manifest"}, Impl: strings.Join(ms, " "),
+		fail(common.Mismatch{Property: prop, Kind: kind, Ops: []string{desc, "manifest"}, Impl: strings.Join(ms, " "),
 			Model: trunc(m.Ask("manifest"), 400), Spec: fmt.Sprintf("%d non-blank lines", len(spec)), Note: dataNote})
 		if got != impl {
 			return
@@ -767,7 +834,7 @@ func checkFile(ctx *common.Ctx, res *common.Result, m *common.Model, fc *fileCas
 			}
 			fop := fmt.Sprintf("open %d %d %d %d full", epoch, start, end, bufLen)
 			fi, _, _ := goOpenTrace(ch, epoch, start, end, bufLen, true)
-			res.Fail(common.Mismatch{Property: prop, Kind: kind, Ops: []string{desc, fop}, Impl: trunc(fi, 600), Model: trunc(m.Ask(fop), 600), Note: dataNote})
+			fail(common.Mismatch{Property: prop, Kind: kind, Ops: []string{desc, fop}, Impl: trunc(fi, 600), Model: trunc(m.Ask(fop), 600), Note: dataNote})
 		}
 		if k == 0 {
 			res.Sample(map[string]string{"file": desc, "op": op, "impl": impl, "model": got}, 12)
@@ -787,6 +854,11 @@ func checkFile(ctx *common.Ctx, res *common.Result, m *common.Model, fc *fileCas
 		res.Count("epoch", 1)
 		res.Count("epoch-lines", n)
 		res.Count("epoch-refills", refills)
+		if !small {
+			res.Count("bigfile-bytes", len(fc.data))
+			res.Count("bigfile-epoch-refills-32MiB", refills)
+			res.Count("bigfile-epoch-opens", len(allRanges(n)))
+		}
 		if refills > len(allRanges(n)) && fc.blank > 0 {
 			res.Nontrivial(desc + " " + op)
 		}
@@ -804,7 +876,7 @@ func checkFile(ctx *common.Ctx, res *common.Result, m *common.Model, fc *fileCas
 			if !propOK {
 				kind = "failing-input"
 			}
-			res.Fail(common.Mismatch{Property: prop, Kind: kind, Ops: []string{desc, op}, Impl: impl, Model: got,
+			fail(common.Mismatch{Property: prop, Kind: kind, Ops: []string{desc, op}, Impl: impl, Model: got,
 				Spec: "multiset of the non-blank lines: " + multisetKey(spec), Note: dataNote})
 		}
 		res.Sample(map[string]string{"file": desc, "op": op, "impl": impl, "model": got, "refills": fmt.Sprint(refills)}, 12)
@@ -820,6 +892,7 @@ func main() {
 	}
 	res := common.NewResult(ctx, "tuner-"+*suite, prop)
 	res.Rule = "shuffle: (n, epoch) whose image needs at least one rejection step of the cycle walk (n not a power of two); " +
+		"feistel images of odd bit width (unbalanced halves); " +
 		"reader: Open/epoch on a file with at least one blank line in which Read refilled its buffer window at least twice; " +
 		"chunks: batches split into more than one chunk"
 	dir, err := os.MkdirTemp("", "c20-")
@@ -842,5 +915,6 @@ func main() {
 		os.RemoveAll(dir)
 		os.Exit(2)
 	}
+	flushFails(res)
 	res.Write(ctx)
 }
